@@ -283,6 +283,52 @@ func VerifC03_NoDirectory() {
 	sym.Reach("done")
 }
 
+// VerifC03_MemoryBoundWithoutDirectory: "only a fixed number of chunks stay in
+// memory" when chunks cannot be spilled at all (the queue directory cannot be
+// opened) and the consumer is stalled: between two accepts the feeder runs
+// until it blocks (virtual time passes), so the only chunks in memory are the
+// output window, the one the feeder holds and - while the window is less than
+// half full - the ones just queued; every further chunk is counted as dropped
+// instead of piling up in the queue. Without a directory nothing is unloaded,
+// so every queued chunk is a chunk in memory.
+//
+//verif:native off
+//verif:preempt 0
+//verif:clock virtual
+//verif:reach done dropped
+func VerifC03_MemoryBoundWithoutDirectory() {
+	defer verifScale()()
+	defs.BufferMaxNumChunksInQueue = 4
+	defs.BufferMaxNumChunksInMemory = 2 + 2*sym.Choice("memoryWindowHalf", 2) // window of 2 or 4 chunks
+	fs := fsmodel.Reset()
+	fs.NoDir = true
+	m := fakes.NewMetrics()
+	buf := newBufferer(logger.Root(), "/root", "id1", verifMatchFF, m, 1<<30, false).(*bufferer)
+	buf.Start()
+	args := buf.RegisterNewConsumer()
+	takes := sym.Choice("consumerTakesBeforeStalling", 3) // the consumer takes 0..2 chunks (never confirms them), then stalls
+	go func() {
+		for i := 0; i < takes; i++ {
+			<-args.InputChannel
+		}
+	}()
+	k := 4 + sym.Choice("extraChunks", 2)
+	for i := 0; i < k; i++ {
+		buf.Accept(base.LogChunk{ID: verifIDs[i], Data: []byte{1, 2, 3}}) // must never block
+		time.Sleep(time.Second)                                          // quiescence: the feeder has moved what it can
+		inMemory := len(buf.inputChannel) + len(buf.feeder.outputChannel) + 1
+		sym.Assert(inMemory <= defs.BufferMaxNumChunksInMemory+1+defs.BufferMaxNumChunksInMemory/2,
+			"with no queue directory and a stalled consumer the chunks kept in memory stay within the memory window (plus the one in the feeder's hands and the half-window slack of Accept)")
+	}
+	dropped := int(m.CounterValue("dropped_chunks_total", "hybridBuffer"))
+	sym.Assert(len(buf.inputChannel)+len(buf.feeder.outputChannel)+1+takes+dropped >= k, "every accepted chunk is in memory, with the consumer, or counted as dropped")
+	sym.Assert(len(fs.Names()) == 0, "no file appears without a directory")
+	if dropped > 0 {
+		sym.Reach("dropped")
+	}
+	sym.Reach("done")
+}
+
 // VerifC03_QueueOverflowKeepsLimit: a stalled consumer, memory window 1 and
 // queue 1: chunks are spilled, the queue overflows and spilled chunks are
 // dropped (their files stay): the directory never exceeds the limit and every
